@@ -86,7 +86,7 @@ def family_cmds(tier, variants, cmdsets, times, plans=()):
     return out
 
 
-def strays_for(rnd, ents, puts):
+def strays_for(rnd, ents, puts, reflect=False):
     """stray / replayed PDUs.  Ids of real transactions are only used towards the two entities that take
     part in that transaction (the hook events identify a transaction by its id, not by the entity);
     everything else uses ids nobody handed out."""
@@ -120,8 +120,14 @@ def strays_for(rnd, ents, puts):
             out.append({"to": p["to"], "at": at, "pdu": dict(base, k="ACK", of="Finished", dir="ToReceiver")})
         elif which == "nak_to_sender":
             out.append({"to": p["from"], "at": at, "pdu": dict(base, k="NAK", dir="ToSender")})
-        elif which == "own_id_back":
+        elif which == "own_id_back" and not reflect:
             out.append({"to": p["from"], "at": at, "pdu": dict(base, k="Metadata", dir="ToReceiver")})
+        elif which == "own_id_back":
+            # one of the entity's own PDUs turned around; the fractions of a second fall between the end of a send task and
+            # the daemon's next clean-up tick (closed but not yet reaped channel).  Only in daemon-only scenarios: the
+            # transaction model counts whole seconds.
+            for dt in rnd.sample([300, 700, 1500, 2500, 4500, 6500, 8500, 12500], 3):
+                out.append({"to": p["from"], "at": p["at"] + dt, "pdu": dict(base, k=rnd.choice(["Metadata", "EOF", "Data"]), dir="ToReceiver")})
         elif which == "late_data":
             out.append({"to": p["to"], "at": at, "pdu": dict(base, k="Data", dir="ToReceiver")})
         else:
@@ -150,10 +156,12 @@ def family_multi(tier, seed, n):
             for b in ents:
                 if a != b and rnd.random() < 0.7:
                     faults["%d-%d" % (a, b)] = {"at": [{"k": rnd.randint(1, 12), "a": rnd.choice(["drop", "drop", "dup", "delay"]), "d": rnd.choice([1, 3])}]}
-        strays = strays_for(rnd, ents, puts)
+        # every third scenario reflects PDUs at fractions of a second: judged at the daemon level only (DaemonTrace.tla)
+        reflect = i % 3 == 2
+        strays = strays_for(rnd, ents, puts, reflect)
         cfg = dcfg(limit=3, nakproc=rnd.choice(["def", "imm"]), closure=rnd.choice([False, True]))
         out.append({"id": "multi-%d-%d" % (seed, i), "seed": seed * 1000 + i, "entities": ents, "cfg": cfg, "puts": puts,
-                    "faults": faults, "cmds": [], "strays": strays, "horizon": 150000})
+                    "faults": faults, "cmds": [], "strays": strays, "horizon": 150000, "daemon_only": reflect})
     return out
 
 
@@ -167,6 +175,16 @@ def _shard(args):
     with open(raw) as f:
         lines = [json.loads(l) for l in f if l.strip()]
     tr = dconv.convert(lines)
+    # scenarios with sub-second events are judged at the daemon level only (the transaction model counts whole seconds)
+    skip = set(l["sc"]["id"] for l in lines if l["k"] == "scenario" and l["sc"].get("daemon_only"))
+    if skip:
+        keep, cur = [], True
+        for l in tr:
+            if l["a"] == "Reset":
+                cur = l["id"].rsplit("-tx", 1)[0] not in skip
+            if cur:
+                keep.append(l)
+        tr = keep
     tpath = os.path.join(work, "trace-%d.ndjson" % k)
     with open(tpath, "w") as f:
         for l in tr:
